@@ -35,7 +35,8 @@ func checkC14(c *Ctx) {
 	c.Floor("DUP-NAME", 1)
 	c.Decides("CMD-REACHES: in the matrix command nothing between the head of the loop over the input trees and the call of ToDistanceMatrix leaves the iteration except under an error test")
 	c.cmdReaches("CMD-REACHES", "cmd/matrix.go", []string{"ToDistanceMatrix"}, "the patristic distance matrix of a tree")
-	c.Floor("CMD-REACHES", 1)
+	c.cmdReaches("CMD-REACHES", "cmd/brlencut.go", []string{"CutEdgesMaxLength"}, "partitions the tips exactly into the groups connected by branches shorter than the threshold")
+	c.Floor("CMD-REACHES", 2)
 	c.Floor("TABLE", 5)
 	c.Floor("ORDER", 3)
 	c.Floor("LF", 3)
